@@ -254,6 +254,7 @@ Section Proofs3.
     - (* LReplayEntry *) exact (append_shape _ _ _ _ Hsh E2).
     - exact Hsh.
     - exact Hsh.
+    - exact Hsh.
     - (* LRestart *) unfold shape; cbn. repeat (split; [try constructor; try assumption|]).
       apply Forall_app. split; [exact Hd|]. apply Forall_app. split; [|apply Forall_app; split].
       + apply Forall_forall. intros p Hp. apply in_map_iff in Hp. destruct Hp as [[k [sg items]] [<- Hin]].
